@@ -15,6 +15,7 @@ CONSTANTS
   ConcGrid <- G_None
   YieldK <- K_None
   TerminalQueries = TRUE
+  AllowEmpty = FALSE
 VIEW View
 INVARIANT WorkspaceWellFormed
 INVARIANT SplitPartitions
